@@ -97,15 +97,17 @@ def Htm : ShapeH V3 Iso3 (Mesh Float × Nat) where
 
 /-- `project_local_point_and_get_location(_with_max_dist)`; `md = none` is `Real::MAX` -/
 def tmLocModel (s : Mesh Float × Nat) (p : V3 Float) (so : Bool) (md : Option Float) : String :=
+  let body := fun (pp : PP3 Float) (loc : TriLoc Float) => s!"{fb pp.inside} {fv3 pp.pt} {s.2} {ftriLoc loc}"
   match computePseudoNormals Float.acos s.1 with
   | none => "panic"
-  | some pn => match trimeshLocate s.1 (some pn) s.2 p so with
-    | none => "panic"
-    | some (pp, loc) =>
-      let body := s!"{fb pp.inside} {fv3 pp.pt} {s.2} {ftriLoc loc}"
-      match md with
-      | none => body
-      | some d => if (pp.pt.sub p).norm < d then "some " ++ body else "none"
+  | some pn => match md with
+    | none => match trimeshLocate s.1 (some pn) s.2 p so with
+      | none => "panic"
+      | some (pp, loc) => body pp loc
+    | some d => match trimeshLocateMaxDist s.1 (some pn) s.2 p so d with
+      | none => "panic"
+      | some none => "none"
+      | some (some (pp, loc)) => "some " ++ body pp loc
 
 def tmLocJudge (s : Mesh Float × Nat) (P : V3 Rat) (so : Bool) (ins : Bool) (pr : V3 Float) (fid : Nat) (l : LocOut) : String :=
   let S := meshSpec s.1
